@@ -1182,7 +1182,9 @@ func (fc *funcContext) translateConversion(expr ast.Expr, desiredType types.Type
 			switch et := exprType.Underlying().(type) {
 			case *types.Basic:
 				if is64Bit(et) {
-					value = fc.formatExpr("%s.$low", value)
+					// The whole value decides whether it is a valid code point:
+					// anything beyond 32 bits converts to "\uFFFD".
+					value = fc.formatExpr("$flatten64(%s)", value)
 				}
 				if isNumeric(et) {
 					return fc.formatExpr("$encodeRune(%s)", value)
